@@ -50,12 +50,56 @@ def check(ctx):
              "a loop over chars), which would be blind to strings and comments; inside the tokenizer the raw scans are the three "
              "reviewed ones (comment body, string body, escape digits), which also serve as the positive control")
     ctx.guard("C17-F", rule_f)
+    ctx.rule("C17-G", "an unknown at-rule ends where its brackets are balanced: skip_to_end_of_statement returns Ok after a token only "
+             "on the true edge of bra_stack.is_empty() — a `;` or `}` inside (...), [...] or {...} does not end the statement")
+    ctx.guard("C17-G", rule_g)
 
 
 RAW_SCANNERS = ("take_until", "take_until1", "take_till", "take_till1", "take_while", "take_while1", "take_while_m_n", "is_not", "is_a",
                 "find", "rfind", "split", "splitn", "rsplit", "rsplitn", "split_once", "rsplit_once", "split_terminator", "split_inclusive",
                 "trim_start_matches", "trim_end_matches", "trim_matches", "strip_suffix", "lines", "anychar", "not_line_ending", "rest",
                 "position", "rposition", "memchr", "match_indices", "rmatch_indices", "matches", "contains")
+
+
+def rule_g(ctx):
+    F = ctx.facts
+    b = F.one("css::parser::skip_to_end_of_statement")
+    from ..util import edges_where, unreachable_without_edges, direct_place
+    pt = b.calls(lambda cd, t: ends(cd, "css::parser::parse_token"))
+    require(len(pt) == 1, "skip_to_end_of_statement must tokenise with parse_token in one place")
+    # the stack local: the Vec that OpenBrace/OpenRound/.. push onto
+    pushes = b.calls(lambda cd, t: callee_method(t) == "push" and "Token" in " ".join((t.get("callee") or {}).get("targs") or []))
+    ctx.floor("C17-G", "bracket pushes in skip_to_end_of_statement", len(pushes), 4)
+    stacks = {(direct_place(b, t["args"][0]) or {}).get("l") for _bb, t in pushes}
+    def pred(truth, src, a, s2):
+        if truth is not True or not src or src[0] != "call" or callee_method(src[1]) != "is_empty":
+            return False
+        pl = direct_place(b, src[1]["args"][0])
+        return pl is not None and pl["l"] in stacks
+    cut = edges_where(b, pred)
+    ctx.floor("C17-G", "bra_stack.is_empty() tests", len({a for a, _s in cut}), 3)
+    # Ok results
+    n = 0
+    for x in sorted(b.reachable()):
+        for st in b.stmts(x):
+            rv = st.get("rv") or {}
+            if not (st["k"] == "assign" and st["lhs"]["l"] == 0 and not st["lhs"]["p"] and rv.get("agg") == "adt" and rv.get("variant") == "Ok"):
+                continue
+            n += 1
+            # the exit taken when no further token can be read
+            no_token = False
+            for a in b.reachable():
+                if b.term(a)["k"] == "switch" and b.dominates(a, x):
+                    _neg, src = b.switch_source(a)
+                    if src and src[0] == "discr" and src[1]["l"] == pt[0][1]["dest"]["l"]:
+                        errs = [tb for v, tb in b.term(a)["targets"] if v == 1]
+                        if errs and b.dominates(errs[0], x):
+                            no_token = True
+            okc = no_token or unreachable_without_edges(b, x, cut)
+            ctx.check(okc, "C17-G", "skip_to_end_of_statement:Ok#%d:only-with-balanced-brackets" % n, st["span"], b.id,
+                      "the statement is ended here although the bracket stack need not be empty: a `;` inside (...) or [...] of an "
+                      "at-rule prelude cuts the rule short and the rest of the sheet is read from the middle of it")
+    ctx.floor("C17-G", "Ok results of skip_to_end_of_statement", n, 4)
 
 
 TOKENIZER_SCANS = {
